@@ -13,7 +13,10 @@ HolderOps == {"GetPoint", "GetSecret", "GetSecretOrNone", "CheckFutureSecret", "
               "Restart"}
 CpOps == {"SignCp", "ValidateRevocation", "Restart"}
 \* SignMutualClose needs both sides: it is part of the "all" alphabet only
+Base == CHOOSE n \in 0..100000 : ToString(n) = IOEnv.CH_BASE
 Reqs == IF Side = "handler" THEN HandlerRequests(N, {"A", "B"}, TT) ELSE
+        IF Side = "deepcp" THEN {r \in DeepCpRequests(Base, N, {"A", "B"}, TT) :
+                                   r.op = "ValidateRevocation" => r.m \in {r.n, r.n + 1}} ELSE
         {r \in Requests(N, HC, CC, TT) :
            /\ (r.op = "ValidateHolder" /\ r.sig \in {"badhtlc", "shorthtlc"} => r.c = "H")
            /\ (Side = "holder" => r.op \in HolderOps)
